@@ -68,7 +68,7 @@ theorem C02_call_vars (w : World) (cx : Ctx) (base : Env) (c : Cache)
   generalize runLayers w cx pre4 0 { td := none, env := base, cache := c } = s
   simp only [runLayers]
   rw [stepLayer_frame _ _ _ _ _ _ htask]
-  simp only [stepLayer, Site.inTaskDir, hcall, Bool.false_eq_true, if_false]
+  simp only [stepLayer, layerDir, Site.inTaskDir, hcall, Bool.false_eq_true, if_false]
   exact evalBlock_last w cx.rootDir pre post m d s.env s.cache hpost
 
 example : product [(0, [[1], [2]]), (1, [[7], [8]])] =
